@@ -115,6 +115,7 @@ struct Exec {
     json steps;
     size_t pc = 0;
     int end_ticks = 0, ticks_done = 0;
+    bool compact = false;            // crowd executions (hundreds of lookups at once): isRunning() lists and queries are not logged
     bool ending = false, ended = false;
     std::vector<int> ids;            // ordinal k (1-based) -> id returned by request()
     // current step
@@ -192,7 +193,8 @@ struct Exec {
 
     void finish_event() {
         bool chk = after.empty();
-        ev["cbs"] = cbs; ev["run"] = running(); ev["chk"] = chk; ev["passes"] = passes;
+        ev["cbs"] = cbs; ev["chk"] = chk && !compact; ev["passes"] = passes;
+        if (compact) { ev["run"] = json::array(); ev.erase("q"); } else ev["run"] = running();
         if (wait_queue && !queue_empty() && any_running()) ev["stuck"] = true;   // a lookup is pending but datagrams are never read
         vh::T().line(ev.dump());
         for (auto &a : after) { a["cbs"] = json::array(); a["run"] = running(); a["chk"] = false; vh::T().line(a.dump()); }
@@ -222,7 +224,9 @@ struct Exec {
             json e; e["e"] = "Reply"; e["s"] = s; e["k"] = k; e["d"] = json::array();
             for (uint8_t b : d) e["d"].push_back((int)b);
             if (op.contains("tag")) e["tag"] = op["tag"];
-            if (!have_client) { e["e"] = "Skip"; begin(e, 0, false); return; }
+            // nothing outstanding: the client socket is not read, the datagram would sit in its queue and be delivered to
+            // whatever lookup is issued next (harmless with sequential ids, a legitimate match with unpredictable ids): not sent
+            if (!have_client || !any_running()) { e["e"] = "Skip"; begin(e, 0, false); return; }
             ssize_t r = sendto(g_srv[s], d.data(), d.size(), 0, (struct sockaddr *)&client, sizeof client);
             if (r != (ssize_t)d.size()) { fprintf(stderr, "sendto failed: %s\n", strerror(errno)); _exit(3); }
             ++sent;
@@ -263,13 +267,14 @@ static void run_script(const json &sc) {
     x.n = sc.value("n", 2);
     x.steps = sc["steps"];
     x.end_ticks = sc.value("end_ticks", 40);
+    x.compact = sc.value("compact", false);
     x.loop = event::Loop::New();
     auto before = dgram_fds();
     DnsRequest::IPAddressVec ips;
     for (int s = 1; s <= x.n; ++s) ips.push_back(IPAddress::FromString(g_srv_ip[s]));
     x.dns.reset(new DnsRequest(x.loop, ips));
     for (int fd : dgram_fds()) if (!before.count(fd)) x.client_fd = fd;
-    json e; e["e"] = "New"; e["n"] = x.n; e["fd"] = x.client_fd >= 0; e["script"] = sc;
+    json e; e["e"] = "New"; e["n"] = x.n; e["fd"] = x.client_fd >= 0; if (!x.compact) e["script"] = sc; else e["crowd"] = sc;
     vh::T().line(e.dump());
     x.repost();
     x.loop->runLoop(event::Loop::Mode::kForever);
